@@ -109,7 +109,7 @@ def doc_part1m(as_ref, order="ABC"):
 
 # ---------------------------------------------------------------------------------------------------- part 2
 
-SCHEMA_POS = ["prop", "item", "union", "addl", "allof", "param", "body", "resp"]
+SCHEMA_POS = ["prop", "item", "union", "addl", "allof", "param", "body", "resp", "via-nullable30", "via-nullable-array"]
 REF_KINDS = {
     "object": {"type": "object", "required": ["z"], "properties": {"z": {"type": "integer"}, "day": {"type": "string", "format": "date"}}},
     "enum_str": {"type": "string", "enum": ["a", "b"]},
@@ -151,6 +151,16 @@ def _doc_part2(pos, kind, inline, siblings=False):
         sch = dict(sch, description="a described use", example=REF_SAMPLES[kind][0])
     comps = {} if inline else {"Comp": comp}
     paths = {}
+    if pos in ("via-nullable30", "via-nullable-array"):
+        # OpenAPI 3.0 union-like wrappers around a reference to Comp: used through a component (Wrapper) or written at the point of use
+        comps = {"Comp": comp}
+        wrapper = {"allOf": [{"$ref": R + "Comp"}], "nullable": True} if pos == "via-nullable30" else {"type": "array", "items": {"$ref": R + "Comp"}, "nullable": True}
+        if inline:
+            comps["M"] = {"type": "object", "properties": {"p": wrapper}}
+        else:
+            comps = {"Wrapper": wrapper, "Comp": comp, "M": {"type": "object", "properties": {"p": {"$ref": R + "Wrapper"}}}}
+        d = gen.base_doc(comps, paths={"/m": {"get": {"operationId": "getM", "responses": {"200": {"description": "d", "content": {"application/json": {"schema": {"$ref": R + "M"}}}}}}}}, version="3.0.3")
+        return d
     if pos == "prop":
         comps["M"] = {"type": "object", "properties": {"p": sch}}
     elif pos == "item":
@@ -178,6 +188,10 @@ def _doc_part2(pos, kind, inline, siblings=False):
 
 def instances_part2(pos, kind):
     s = REF_SAMPLES[kind]
+    if pos == "via-nullable30":
+        return [{}, {"p": None}] + [{"p": copy.deepcopy(v)} for v in s]
+    if pos == "via-nullable-array":
+        return [{"p": None}, {"p": [copy.deepcopy(v) for v in s]}]
     if pos == "prop" or pos == "union":
         return [{}] + [{"p": copy.deepcopy(v)} for v in s]
     if pos == "item":
@@ -319,7 +333,7 @@ def cases(tier):
                 continue
             yield {"labels": [f"schema-pos={pos}", f"kind={kind}"], "payload": {"part": 2, "pos": pos, "kind": kind}}
             yield {"labels": [f"schema-pos={pos}", f"kind={kind}", "ref-with-siblings"], "payload": {"part": 2, "pos": pos, "kind": kind, "siblings": True}}
-            if pos in ("prop", "item", "union", "addl", "allof"):
+            if pos in ("prop", "item", "union", "addl", "allof", "via-nullable30", "via-nullable-array"):
                 for naming in NAMING2:
                     for order in ("comp-first", "holder-first"):
                         if (naming, order) != ("plain", "comp-first"):
@@ -392,7 +406,7 @@ def _behaviour(res, pos, kind, holder="M"):
     from checks.c04 import reencode
     out = []
     with Sandbox(res.pkg_tree()) as sb:
-        if pos in ("prop", "item", "union", "addl", "allof"):
+        if pos in ("prop", "item", "union", "addl", "allof", "via-nullable30", "via-nullable-array"):
             cls = find_class(res, sb, holder)
             if cls is None:
                 return None
@@ -411,6 +425,8 @@ def _behaviour(res, pos, kind, holder="M"):
                 try:
                     o = cls.from_dict(copy.deepcopy(inst))
                     held = getattr(o, "p", None) if pos != "addl" else dict(getattr(o, "additional_properties", {}))
+                    if held is not None and type(held).__name__ == "Unset":
+                        held = "<unset>"
                     out.append(["ok", o.to_dict(), cat(held)])
                 except Exception as exc:  # noqa: BLE001
                     out.append(["raises", type(exc).__name__])
